@@ -1,6 +1,7 @@
 import KyupyVerif.Proofs.SemL
 import KyupyVerif.Proofs.Consistent
 import KyupyVerif.Model.SimOps
+import KyupyVerif.Proofs.Solve
 /-! # C01 — 2-valued logic simulation computes the netlist's Boolean function
 
 Generated from the working tree: `Gen.sem2n` (what `logic_sim._prop_cpu` computes for an op code),
@@ -74,6 +75,19 @@ theorem sim2_equation (pre post : List Op) (o : Op) (env : Nat → Bool)
     exec semL2n (pre ++ o :: post) env o.out =
       semL2n o.code (o.ins.map (exec semL2n (pre ++ o :: post) env)) :=
   exec_equation semL2n pre post o env hout hins
+
+/-- (4') the whole result: for a program in which no operand is written at or after its use and no signal has two
+    writers (`WellOrdered`; decided by the Boolean certificate `wellOrderedB`, proved sound, evaluated on the REAL ops
+    of every generated circuit; it holds for every topological order, C17), the simulation result is THE solution
+    of the netlist's equation system — every gate equation holds, inputs / state slots / the constant-0 slot are
+    untouched, and any other labelling with these properties is equal to it. Any value domain (2-, 4-, 8-valued,
+    waveforms). -/
+theorem sim_is_the_solution {α} (sem : Op → List α → α) (ops : List Op) (hc : wellOrderedB ops = true) (env : Nat → α) :
+    Solves sem ops env (execG sem ops env) ∧ ∀ val, Solves sem ops env val → ∀ x, val x = execG sem ops env x :=
+  ⟨⟨fun x hx => execG_inputs sem ops env x hx, execG_solves sem ops (wellOrderedB_sound ops hc) env⟩,
+   fun val hs => solution_unique sem ops (wellOrderedB_sound ops hc) env val hs⟩
+
+example : wellOrderedB [⟨34952, 10, [0, 1, 9, 9]⟩, ⟨21845, 11, [10, 9, 9, 9]⟩, ⟨61166, 12, [10, 11, 9, 9]⟩] = true := by decide
 
 /-- (5) lane-wise for every lane count: lane `k` of the bit-parallel result is the per-lane function -/
 theorem lanewise2 (w k : Nat) (hk : k < w) (code : Nat) (a b c d : BitVec w) :
